@@ -11,13 +11,13 @@
 #define AM_PCELLS 3
 #endif
 u16 am_daddr[AM_CELLS], am_dval[AM_CELLS]; u32 am_paddr[AM_PCELLS]; u16 am_pval[AM_PCELLS];
-u32 am_reads, am_writes;
+u32 am_reads, am_writes, am_preads;
 #ifdef VERIF_CBMC
 static inline unsigned am_dcell(u16 a) { unsigned k = AM_CELLS; for (unsigned i = 0; i < AM_CELLS; i++) if (k == AM_CELLS && am_daddr[i] == a) k = i; __CPROVER_assume(k < AM_CELLS); return k; }
 static inline unsigned am_pcell(u32 a) { unsigned k = AM_PCELLS; for (unsigned i = 0; i < AM_PCELLS; i++) if (k == AM_PCELLS && am_paddr[i] == a) k = i; __CPROVER_assume(k < AM_PCELLS); return k; }
 #define AM_DATA(a) am_dval[am_dcell(a)]
 #define AM_PROG(a) am_pval[am_pcell(a)]
-#define AM_FRAME __CPROVER_object_whole(am_dval), __CPROVER_object_whole(am_pval), am_reads, am_writes
+#define AM_FRAME __CPROVER_object_whole(am_dval), __CPROVER_object_whole(am_pval), am_reads, am_writes, am_preads
 #else
 static u16 am_data_store[0x10000]; static u16 am_prog_store[0x40000];
 #define AM_DATA(a) am_data_store[(u16)(a)]
@@ -25,19 +25,19 @@ static u16 am_data_store[0x10000]; static u16 am_prog_store[0x40000];
 #endif
 u16 MemoryInterface_DataRead(MemoryInterface *self, u16 address, bool bypass_mmio) { (void)self; (void)bypass_mmio; am_reads++; return AM_DATA(address); }
 void MemoryInterface_DataWrite(MemoryInterface *self, u16 address, u16 value, bool bypass_mmio) { (void)self; (void)bypass_mmio; am_writes++; AM_DATA(address) = value; }
-u16 MemoryInterface_ProgramRead(const MemoryInterface *self, u32 address) { (void)self; return AM_PROG(address); }
+u16 MemoryInterface_ProgramRead(const MemoryInterface *self, u32 address) { (void)self; am_preads++; return AM_PROG(address); }
 void MemoryInterface_ProgramWrite(MemoryInterface *self, u32 address, u16 value) { (void)self; AM_PROG(address) = value; }
 /* spec-side readers (no counters) */
 static inline u16 am_peek(u16 a) { return AM_DATA(a); }
 static inline u16 am_ppeek(u32 a) { return AM_PROG(a); }
 #ifdef VERIF_CBMC
 #define ABSMEM_SETUP() NONDET_ARR(u16, cell_da, AM_CELLS); NONDET_ARR(u16, cell_dv, AM_CELLS); NONDET_ARR(u32, cell_pa, AM_PCELLS); NONDET_ARR(u16, cell_pv, AM_PCELLS); \
-    for (int i_ = 0; i_ < AM_CELLS; i_++) { am_daddr[i_] = cell_da[i_]; am_dval[i_] = cell_dv[i_]; } for (int i_ = 0; i_ < AM_PCELLS; i_++) { am_paddr[i_] = cell_pa[i_]; am_pval[i_] = cell_pv[i_]; } am_reads = am_writes = 0
+    for (int i_ = 0; i_ < AM_CELLS; i_++) { am_daddr[i_] = cell_da[i_]; am_dval[i_] = cell_dv[i_]; } for (int i_ = 0; i_ < AM_PCELLS; i_++) { am_paddr[i_] = cell_pa[i_]; am_pval[i_] = cell_pv[i_]; } am_reads = am_writes = am_preads = 0
 #define ABSMEM_OUT()
 #else
 #define ABSMEM_SETUP() NONDET_ARR(u16, cell_da, AM_CELLS); NONDET_ARR(u16, cell_dv, AM_CELLS); NONDET_ARR(u32, cell_pa, AM_PCELLS); NONDET_ARR(u16, cell_pv, AM_PCELLS); \
     memset(am_data_store, 0, sizeof am_data_store); memset(am_prog_store, 0, sizeof am_prog_store); \
-    for (int i_ = AM_CELLS - 1; i_ >= 0; i_--) { am_daddr[i_] = cell_da[i_]; AM_DATA(cell_da[i_]) = cell_dv[i_]; } for (int i_ = AM_PCELLS - 1; i_ >= 0; i_--) { am_paddr[i_] = cell_pa[i_] & 0x3FFFF; AM_PROG(cell_pa[i_]) = cell_pv[i_]; } am_reads = am_writes = 0
+    for (int i_ = AM_CELLS - 1; i_ >= 0; i_--) { am_daddr[i_] = cell_da[i_]; AM_DATA(cell_da[i_]) = cell_dv[i_]; } for (int i_ = AM_PCELLS - 1; i_ >= 0; i_--) { am_paddr[i_] = cell_pa[i_] & 0x3FFFF; AM_PROG(cell_pa[i_]) = cell_pv[i_]; } am_reads = am_writes = am_preads = 0
 #define ABSMEM_OUT() do { for (int i_ = 0; i_ < AM_CELLS; i_++) { u16 v_ = AM_DATA(am_daddr[i_]); verif_output("dcell", &v_, 2); } OUT(am_reads); OUT(am_writes); } while (0)
 #endif
 #endif
